@@ -25,7 +25,8 @@ EXTENDS Dataflow, Json
 CONSTANTS MaxOps,      \* programs have at most MaxOps top-level operators
           Level,       \* 1: core operator set, 2: extended operator set
           InputSet,    \* "quick" | "mid" | "full"
-          Emit         \* TRUE: print one JSON case per state
+          Emit,        \* TRUE: print JSON cases
+          EmitPlain    \* states in which no rule fires are printed only for the curated inputs with these indices
 
 \* ------------------------------------------------------------- sort keys
 \* As seen by the code: [f, desc] (order.SortKey, single key).  Ghost fields,
@@ -293,7 +294,13 @@ IsTerminal(op) == op.k = "yield" \/ (op.k = "summ" /\ op.key = "")
 NextOps(prog) ==
   IF prog # <<>> /\ IsTerminal(prog[Len(prog)]) THEN {}
   ELSE SimpleOps \cup Terminal \cup ForkOps \cup SwitchOps
-       \cup (IF prog # <<>> /\ prog[Len(prog)].k = "fork" THEN JoinOps \cup MergeOps ELSE {})
+       \cup (IF prog # <<>> /\ prog[Len(prog)].k = "fork" THEN JoinOps ELSE {})
+       \* merge reads its parents head-of-line; behind a fork whose legs stream (no sort) the
+       \* real fork/merge pair can stall even as analyzed, which is not this property's concern
+       \cup (IF prog # <<>> /\ prog[Len(prog)].k = "fork"
+                /\ \A m \in 1..Len(prog[Len(prog)].legs) :
+                      LET leg == prog[Len(prog)].legs[m] IN leg[Len(leg)].k = "sort"
+             THEN MergeOps ELSE {})
 
 \* ------------------------------------------------------------------ inputs
 \* R(a, b): -1 = null, -2 = field absent
@@ -448,7 +455,10 @@ Check ==
       case == [ops |-> [i \in 1..Len(prog) |-> OpText(prog[i])], input |-> ValStrs(inp), sk |-> sk,
                ref |-> ResJson(ref), plan |-> PlanCanon(rw.src, rw.ops), opt |-> ResJson(opt),
                taint |-> rw.taint, rules |-> rw.rules, eq |-> eq]
-  IN /\ Emit => PrintT(ToJson(case))
+      \* Emit: every program of <= 1 operator, every state in which a rule fired (the plan
+      \* changed), and for the rest the states over the curated inputs with an index in EmitPlain.
+      emit == Emit /\ (Len(prog) <= 1 \/ rw.rules # {} \/ \E i \in EmitPlain : i <= Len(QuickInputs) /\ inp = QuickInputs[i])
+  IN /\ emit => PrintT(ToJson(case))
      /\ ~ref.poison                                   \* RefSane
      /\ (ref.det /\ rw.taint = {}) => eq              \* Preserved
 =============================================================================
